@@ -19,6 +19,7 @@ kronBasis_isComplete kronBasis_isOrthoHerm kron_isEigh kron_isEigh_prod kron_lio
 kron_propagators kron_propagators_model kron_segProp kron_segProp_of_isEigh
 kron_total_propagator_model pauliN_ortho_zero pauliN_zero tensorMat_toMatrix tensorSumVec_eq
 trace_basis_sqrt trace_kronFin_conj trace_kron_basis'''.split()
+PINS = ['pinExtend', 'pinRemap']
 GEN_SITES = ['einsum:numeric_calculate_filter_function_0',
              'einsum:numeric_calculate_control_matrix_from_scratch_0']
 COMPONENTS = ['pauli_equiv']
@@ -213,7 +214,7 @@ def assignments(N, max_pulses=3):
     out = []
     qubits = list(range(N))
     for npl in range(1, min(max_pulses, N) + 1):
-        for sizes in itertools.product((1, 2), repeat=npl):
+        for sizes in itertools.product((1, 2, 3), repeat=npl):
             if sum(sizes) > N:
                 continue
             for perm in itertools.permutations(qubits, sum(sizes)):
@@ -232,9 +233,18 @@ def search(ctx, deep=False):
     pool = {N: assignments(N) for N in (1, 2, 3)}
     if ctx.tier == 'thorough' or deep:
         pool[4] = assignments(4, 2)
+    # multi-qubit pulses on three qubits in every order (cyclic orders are the only permutations
+    # that differ from their inverse) are always part of the run
+    three = [a for a in pool[3] if len(a[0]) == 3]
+    if ctx.tier == 'thorough' or deep:
+        three += [a for a in pool[4] if any(len(q) == 3 for q in a)]
     for i in range(n):
-        N = int(rng.choice(list(pool)))
-        a = pool[N][int(rng.integers(0, len(pool[N])))]
+        if i < len(three) and (ctx.tier == 'thorough' or deep or i < 6):
+            a = three[i]
+            N = 1 + max(q for qs in a for q in qs)
+        else:
+            N = int(rng.choice(list(pool)))
+            a = pool[N][int(rng.integers(0, len(pool[N])))]
         case = {'seed': int(rng.integers(0, 2**31)), 'N': N, 'assign': [list(q) for q in a],
                 'n_dt': int(rng.integers(1, 4)),
                 'states': [str(rng.choice(['nothing', 'diag', 'cm', 'ff', 'ff_other'])) for _ in a],
